@@ -928,7 +928,7 @@ def evaluate(ctx, binp, cases, tag, groups=()):
     """implementation + Coq.  cases = the bindings run one App.Run per route; groups = bindings run together (their cases
     carry ids of their own).  returns (by_id, res) with res = {M, V: [ids], K: {id: class}, U, NT: counts}"""
     gin = {"cases": [go_case(c) for c in cases], "groups": [go_group(g) for g in groups]}
-    rc, res, raw = vlib.run_json(binp, gin, timeout=3000)
+    rc, res, raw, _loud = vlib.run_json_verbose_share(ctx, binp, gin, quiet_only=("groups",), timeout=3000)
     if res is None or len(res.get("outs", [])) != len(cases) or len(res.get("gouts") or []) != len(groups):
         raise vlib.GoBuildError("./cmd/c17 (run)", raw[-3000:])
     splice = (res.get("facts") or {}).get("float_splice")
